@@ -202,14 +202,26 @@ def partial_oracle(ctx, n):
             o["d2arrs"] = {pq: l for pq, l in o["d2arrs"].items() if o["order2"] and pq[0] in act and pq[1] in act}
         aliased = any(isinstance(o["order1_arg"], dict) for o in (o1, o2))
         auto2 = any(o["order2_arg"] is True or isinstance(o["order2_arg"], str) for o in (o1, o2))
-        left = "plain" if not o1["order1"] else ("order1" if not o1["order2"] else "order2")
-        right = "plain" if not o2["order1"] else ("order1" if not o2["order2"] else ("auto" if o2["auto"] else "explicit"))
+        def o2class(o):
+            if not o["order1"]:
+                return "plain"
+            if not o["order2"]:
+                return "order1"
+            arg = o["order2_arg"]
+            if arg is True or isinstance(arg, str):
+                return "auto"
+            if isinstance(arg, dict) and any(arg.values()):
+                return "coefs"          # explicit second-order coefficients
+            return "pairs"              # explicit pairs, default coefficients
+        left, right = o2class(o1), o2class(o2)
         carrying = ctx.rng.random() < 0.5
-        # classes in which second-order '@' agrees with sequential application on the pinned tree; every other
-        # class with a second-order declaration is the known finding {"site":"@","why":"order2"}
-        second = (left == "order2") or right in ("auto", "explicit")
-        reliable = (not second) or (left == "plain" and right == "explicit") or (left == "plain" and right == "auto" and not carrying) \
-            or (left == "order1" and right == "explicit" and not carrying)
+        # classes in which second-order '@' agrees with sequential application on the pinned tree (mapped over 8000
+        # random operand pairs, DESIGN section 6); every other class with a second-order declaration is the known
+        # finding {"site":"@","why":"order2"}: '@' hands op1's derivative arrays to op2's bookkeeping as if they were
+        # partials keyed by variable, and re-declares the result with a bare set of pairs (coefficients lost)
+        second = left in ("auto", "pairs", "coefs") or right in ("auto", "pairs", "coefs")
+        reliable = (not second) or (left == "plain" and right == "pairs") or (left == "plain" and right == "auto" and not carrying) \
+            or (left == "order1" and right == "pairs" and not carrying) or (left == "pairs" and right == "plain")
         cls = {"left": left, "right": right, "state": "carrying" if carrying else "fresh"}
 
         def sig(why):
